@@ -76,6 +76,58 @@ PROPS = {
                 extra_assumptions=[TW_NOTE]),
     "C10": spec([reg("C10", 36000, 45, 2000000, 700), tw(6000, 20, 300000, 150)],
                 extra_assumptions=[TW_NOTE]),
+    "C12": spec([reg("C12", 64000, 50, 3000000, 700)],
+                rule=("each run: one registry on a stock-shaped std_rtti "
+                      "policy (offsets read at run time) and on its twin whose "
+                      "pooled methods all have static_offsets<> "
+                      "specialisations; after each update of the twin the real "
+                      "write_static_offsets runs (per policy or per method), "
+                      "its text is parsed (the C++ compiler is the stubbed "
+                      "component) and installed in the specialisations; faults: "
+                      "header not regenerated after the registrations changed, "
+                      "one generated entry perturbed; non-trivial = a method of "
+                      "arity >= 2 was generated for, or a fault fired; distinct "
+                      "= distinct state signature as for the other registry-sim "
+                      "checks"),
+                extra_assumptions=[
+                    "the text is 'compiled' by a parser that accepts exactly "
+                    "the documented shape (one static_offsets specialisation "
+                    "per line); whether a C++ compiler accepts it is not "
+                    "decided here",
+                    "the specialisations hold run-time filled arrays instead "
+                    "of constexpr ones; the library only reads slots[i] and "
+                    "strides[i]",
+                    "the generator needs std_rtti (it demangles type_info "
+                    "names): only the stock debug / release shapes are used"]),
+    "C13": spec([reg("C13", 160000, 45, 4000000, 700)],
+                rule=("each run: a generator process (load / unload / update "
+                      "history on a stock-shaped std_rtti policy, the last "
+                      "update is encoded with the real encode_dispatch_data), "
+                      "then a consumer process (every static of the policy "
+                      "back to its load-time state, the same registrations "
+                      "constructed again in the same catalog order, kinds "
+                      "interleaved by the seed) that parses the emitted text "
+                      "into one heap block laid out as the emitted struct "
+                      "declares and runs the real decode_dispatch_data on it; "
+                      "fault: exhausted hash-search budget inside decode; "
+                      "non-trivial / distinct as for the other registry-sim "
+                      "checks"),
+                extra_assumptions=[
+                    "the emitted text is 'compiled' by a parser of braced "
+                    "initialisers that rejects what a compiler would reject "
+                    "for this shape (negative bounds, excess initialisers, "
+                    "constants that do not fit); acceptance by the supported "
+                    "compilers themselves is not decided here",
+                    "the decoded block is one malloc'ed object of exactly the "
+                    "declared size: AddressSanitizer reports any read or "
+                    "write outside it",
+                    "same registrations = same catalogs in the same order; "
+                    "nothing is claimed when the consumer's static "
+                    "initialisation order differs from the generator's",
+                    "known finding K1 (next slots are not installed by "
+                    "decode) is tolerated run by run and reported as "
+                    "KNOWN-FINDING; definitions then do not call next after "
+                    "decode"]),
     "C14": spec([reg("C14", 40000, 45, 2000000, 780),
                  reg("tw2", 4000, 25, 200000, 200)],
                 extra_assumptions=[TW_NOTE,
